@@ -85,9 +85,10 @@ Theorem C06_process_rejects_each :
 Proof. intros S T C exec k cd ci ceqb. exact (process_rejects_each exec k cd ci ceqb). Qed.
 Print Assumptions C06_process_rejects_each.
 
-(** prepare => process, for every queue and every max_tx_bytes, PROVIDED every included
-    transaction passes the construction-time checks in the block-start state (and the
-    proposer's extended commit info item fits; see C06_prepare_accepted_refuted). *)
+(** prepare => process, for every queue and every max_tx_bytes (also when the extended commit info
+    does not fit and prepare_proposal substitutes the empty one), PROVIDED every included
+    transaction passes the construction-time checks in the block-start state (see
+    C06_prepare_accepted_refuted). *)
 Theorem C06_prepare_accepted :
   forall (S T C : Type) (exec : S -> tx T -> outcome S) (construct : S -> tx T -> bool)
          (commit_datas commit_ids : list (tx T) -> S -> C) (ceqb : C -> C -> bool) e s0 q mx p,
@@ -95,7 +96,6 @@ Theorem C06_prepare_accepted :
     env_wf e ->
     (mx <= Z.of_N I64_MAX)%Z ->
     prepare exec commit_datas commit_ids e s0 q mx = inl p ->
-    eci_fits e mx ->
     Forall (fun t => construct s0 t = true) (p_included p) ->
     process exec construct commit_datas commit_ids ceqb e s0 (p_entries p) = Accept.
 Proof. intros S T C exec k cd ci ceqb. exact (prepare_accepted exec k cd ci ceqb). Qed.
@@ -106,7 +106,7 @@ Print Assumptions C06_prepare_accepted.
     block against the block-start state. *)
 Theorem C06_prepare_accepted_refuted :
   exists (e : env) (s0 : lstate) (q : list ltx) (mx : Z) p,
-    env_wf e /\ (mx <= Z.of_N I64_MAX)%Z /\ eci_fits e mx /\
+    env_wf e /\ (mx <= Z.of_N I64_MAX)%Z /\
     lprepare e s0 q mx = inl p /\
     p_included p = q /\
     run_nonfatal lexec s0 (p_included p) (p_state p) /\
@@ -115,15 +115,17 @@ Theorem C06_prepare_accepted_refuted :
 Proof. exact prepare_accepted_refuted. Qed.
 Print Assumptions C06_prepare_accepted_refuted.
 
-(** Nor does it hold without [eci_fits] (finding F10b): when the extended commit info does not fit
-    below max_tx_bytes, prepare_proposal substitutes an item holding empty bytes, which no
-    process_proposal can decode. *)
-Theorem C06_prepare_accepted_eci_refuted :
+(** For the record (finding F10b, repaired by repository commit a321bb4): with the fallback item
+    prepare_proposal used before that commit, an item holding empty bytes, a block within
+    max_tx_bytes whose transactions are all constructible was refused as unparseable.
+    [lprepare_before_a321bb4] (Proposal/ProposalWitness.v) differs from [prepare] in that item
+    only and is not part of the extracted model. *)
+Theorem C06_prepare_before_a321bb4_rejected :
   exists (e : env) (s0 : lstate) (q : list ltx) (mx : Z) p,
-    env_wf e /\ (mx <= Z.of_N I64_MAX)%Z /\ ~ eci_fits e mx /\
-    lprepare e s0 q mx = inl p /\
+    env_wf e /\ (mx <= Z.of_N I64_MAX)%Z /\
+    lprepare_before_a321bb4 e s0 q mx = inl p /\
     Forall (fun t => lconstruct s0 t = true) (p_included p) /\
     proposal_len (e_typed e) (p_entries p) <= Z.to_N mx /\
     lprocess e s0 (p_entries p) = Reject RParse.
-Proof. exact prepare_accepted_eci_refuted. Qed.
-Print Assumptions C06_prepare_accepted_eci_refuted.
+Proof. exact prepare_before_a321bb4_rejected. Qed.
+Print Assumptions C06_prepare_before_a321bb4_rejected.
